@@ -247,3 +247,6 @@ Inductive go_error (E : Type) : Type := GoErrNil | GoErrNew (text : list N) | Go
 Arguments GoErrNil {E}.
 Arguments GoErrNew {E} text.
 Arguments GoErrVal {E} e.
+
+(* maps with string keys (units with StrMaps): the list of insertions in order; m[k] = v appends *)
+Definition go_smap_put {V} (m : list (list N * V)) (k : list N) (v : V) : list (list N * V) := m ++ [(k, v)].
